@@ -250,7 +250,8 @@ impl<Rd: Reader, const S: usize, const E: usize, const P: usize> EvaluationStora
     type Result = [Piece<Rd>; P];
 }
 
-/// reader-operation budget of an evaluation without `max_iterations` (answered as `diverge`)
+/// reader-operation budget of every evaluation (answered as `diverge` when exhausted; the Model's
+/// fuel is 30000 operations, which can not use this many reader operations)
 const NO_LIMIT_BUDGET: u64 = 400_000;
 
 pub struct EvalArgs<'a> {
@@ -271,13 +272,10 @@ fn run_eval<'a, S: EvaluationStorage<R<'a>>>(a: &EvalArgs<'a>) -> String {
     if let Some(v) = a.obj {
         eval.set_object_address(v);
     }
-    match a.max {
-        Some(m) => {
-            eval.set_max_iterations(u32::try_from(m).unwrap_or(u32::MAX));
-            set_fail_at(None);
-        }
-        None => set_fail_at(Some(NO_LIMIT_BUDGET)),
+    if let Some(m) = a.max {
+        eval.set_max_iterations(u32::try_from(m).unwrap_or(u32::MAX));
     }
+    set_fail_at(Some(NO_LIMIT_BUDGET));
     let mut reqs: Vec<String> = Vec::new();
     let mut toks = a.script.iter();
     let mut r = eval.evaluate();
